@@ -1,4 +1,6 @@
 import LP.Props.C13Count
+import LP.Props.C13Status
+import LP.Props.C13IntersectNF
 import LP.Props.C13Obs
 import LP.Props.GenTables
 import LP.Props.C13
@@ -30,3 +32,9 @@ import LP.Props.C13Int
 #print axioms LP.FSet.C13_isFull
 #print axioms LP.FSet.C13_countInt
 #print axioms LP.FSet.C13_set_countInt
+#print axioms LP.FSet.C13_intersect_status
+#print axioms LP.FSet.C13_intersect_nf
+#print axioms LP.FSet.intersectLoop_all1
+#print axioms LP.FSet.intersectLoop_all2
+#print axioms LP.FSet.C13_intersect_nfs
+#print axioms LP.FSet.cwi_bounds
